@@ -1,15 +1,41 @@
-import GceTcb.Model.TdxGuidTable
+import GceTcb.Model.GuidTable
 import GceTcb.Model.Intervals
 /-
 C05 / C08 (TDX half) — executable model of ovmf/tdx_data.go: extractTDXMetadata,
 validateTDXMetadataSections (WITH the repair c490a61: the memory range of every section is bounded),
 tdxFwParser.validateMetadataSectionGpr and the section loop of tdxFwParser.parse.  Core-only.
 
+The GUID-table walk (ovmf.GetFwGUIDToBlockMap) is the shared model `Model/GuidTable.lean` (C04 / C08
+SEV half); its error classes are folded into the one coarse class "guidtable" here.
+
 Integers are `Nat` with the uint32 / uint64 reductions written out.  Byte slices have cap = len.
 Error classes are the coarse classes the harness derives from the Go error texts.
 -/
 namespace GceTcb.TdxMeta
-open GceTcb GceTcb.Codec GceTcb.Codecs GceTcb.TdxGuidTable GceTcb.Intervals
+open GceTcb GceTcb.Codec GceTcb.Codecs GceTcb.GuidTable GceTcb.Intervals
+
+/-- `b[lo:hi]` once the Go bounds check has passed -/
+def sliceOf (b : Bytes) (lo hi : Nat) : Bytes := (b.drop lo).take (hi - lo)
+
+/-- Go slice expression `b[lo:hi]` with unsigned bounds (cap = len): the shared checked slice
+    `GuidTable.slice`; panics unless `lo ≤ hi ≤ len(b)` -/
+def goSlice (site : String) (b : Bytes) (lo hi : Nat) : Outcome Bytes :=
+  slice site b (lo : Int) (hi : Int)
+
+/-- value of a hexadecimal digit (0 for anything else) -/
+def hexDigit (c : Char) : Nat :=
+  if 48 ≤ c.toNat ∧ c.toNat ≤ 57 then c.toNat - 48
+  else if 97 ≤ c.toNat ∧ c.toNat ≤ 102 then c.toNat - 87
+  else if 65 ≤ c.toNat ∧ c.toNat ≤ 70 then c.toNat - 55
+  else 0
+
+def hexPairs : List Char → Bytes
+  | a :: b :: t => UInt8.ofNat (16 * hexDigit a + hexDigit b) :: hexPairs t
+  | _ => []
+
+/-- the 16 bytes of a uuid.UUID from its canonical text (uuid.MustParse of a constant); written over
+    `String.toList` so that the kernel can evaluate it (`C08_guid_constants`) -/
+def uuidOfString (s : String) : Bytes := hexPairs (s.toList.filter (fun c => c.toNat ≠ 45))
 
 def tdxOffsetUuid : Bytes := uuidOfString "e47a6535-984a-4798-865e-4685a7bf8ec2"
 def tdxMetadataUuid : Bytes := uuidOfString "e9eaf9f3-168e-44d5-a8eb-7f4d8738f6ae"
@@ -98,16 +124,16 @@ def decodeAndValidate (fwLen : Nat) (desc : Bytes) : Outcome TdxMetadata :=
 
 /-- go: ovmf.extractTDXMetadata -/
 def extractTDXMetadata (fw : Bytes) : Outcome TdxMetadata :=
-  match getFwGuidToBlockMap fw with
-  | .ok w =>
-    match lookup w.blocks tdxOffsetUuid with
+  match getFwGUIDToBlockMap fw with
+  | .ok m =>
+    match m.lookup tdxOffsetUuid with
     | none => .err "noblock"
     | some block =>
       match locateMetadata fw block with
       | .ok desc => decodeAndValidate (fw.length % 2 ^ 32) desc
       | .err c => .err c
       | .panic p => .panic p
-  | .err c => .err c
+  | .err _ => .err "guidtable"
   | .panic p => .panic p
 
 /-- `HostBuffer`: `data ++ zeros pad` (zero tails are kept symbolic so that outcome classes can be
